@@ -248,5 +248,5 @@ var verifEngineAbort = &verifsim.Engine{
 }
 
 func TestVerifSim(t *testing.T) {
-	verifsim.Main(t, map[string]*verifsim.Engine{"C03": verifEngineAbort})
+	verifsim.Main(t, map[string]*verifsim.Engine{"C03": verifEngineAbort, "C08": verifEngineNoticesUsers})
 }
